@@ -6,6 +6,7 @@ import (
 	"bytes"
 	stdjson "encoding/json"
 	"fmt"
+	"io"
 	"strings"
 
 	codec "github.com/evanphx/json-patch/v5/verifcodec"
@@ -176,6 +177,76 @@ type encLine struct {
 	Keys      [][]int            `json:"keys"`
 }
 
+// streams: the texts of the enc lines a worker has seen are concatenated (white space between them)
+// and decoded as ONE stream through the codec's Decoder from a reader that delivers short reads, so
+// that values straddle the Decoder's buffer refills; every decoded value must be the value of its text.
+type streamAcc struct {
+	buf   bytes.Buffer
+	wants [][]byte
+}
+
+var streams [256]streamAcc
+
+type shortReader struct {
+	data []byte
+	n    int
+}
+
+func (r *shortReader) Read(p []byte) (int, error) {
+	if len(r.data) == 0 {
+		return 0, io.EOF
+	}
+	k := r.n
+	if k > len(p) {
+		k = len(p)
+	}
+	if k > len(r.data) {
+		k = len(r.data)
+	}
+	copy(p, r.data[:k])
+	r.data = r.data[k:]
+	return k, nil
+}
+
+func (e *engine) streamCheck(worker int, text, want []byte, flush bool, viol func(string, string, map[string]interface{}) *lib.Violation) {
+	a := &streams[worker%256]
+	a.buf.Write(text)
+	a.buf.WriteString([]string{" ", "\n", "\t\r\n", ""}[len(a.wants)%4])
+	if len(a.wants)%4 == 3 {
+		a.buf.WriteByte(' ')
+	}
+	a.wants = append(a.wants, want)
+	if len(a.wants) < 24 && !flush {
+		return
+	}
+	stream := append([]byte{}, a.buf.Bytes()...)
+	wants := a.wants
+	a.buf.Reset()
+	a.wants = nil
+	for _, chunk := range []int{1 << 20, 7, 513} {
+		dec := codec.NewDecoder(&shortReader{data: stream, n: chunk})
+		dec.UseNumber() // number literals are kept (a plain Decoder converts to float64, as encoding/json does)
+		for i, w := range wants {
+			var x interface{}
+			if err := dec.Decode(&x); err != nil {
+				e.rep.Report(viol("stream", fmt.Sprintf("Decoder fails on value %d of a stream of %d well-formed values (reads of %d bytes): %v", i+1, len(wants), chunk, err),
+					map[string]interface{}{"api": "Decoder", "stream": string(stream)}))
+				return
+			}
+			out, err := codec.MarshalEscaped(x, false)
+			if err != nil || !bytes.Equal(out, w) {
+				e.rep.Report(viol("stream", fmt.Sprintf("Decoder returns another value than the text holds at position %d of a stream (reads of %d bytes)", i+1, chunk),
+					map[string]interface{}{"api": "Decoder", "stream": string(stream), "got": string(out), "want": string(w)}))
+				return
+			}
+		}
+		if dec.More() {
+			e.rep.Report(viol("stream", "Decoder reports more values after the last one", map[string]interface{}{"api": "Decoder", "stream": string(stream)}))
+		}
+		e.rep.Label("StreamDecoded")
+	}
+}
+
 func (e *engine) checkEncLine(worker int, raw []byte) error {
 	var ln encLine
 	if err := stdjson.Unmarshal(raw, &ln); err != nil {
@@ -258,6 +329,11 @@ func (e *engine) checkEncLine(worker int, raw []byte) error {
 	e.rep.Count("executions", 1)
 	if pan != "" {
 		e.rep.Report(viol("panic", "codec panicked: "+firstLine(pan), map[string]interface{}{"api": "codec"}))
+		return nil
+	}
+	pan = e.wd.Guard(worker, hang, func() { e.streamCheck(worker, text, toBytes(ln.SortedRaw), false, viol) })
+	if pan != "" {
+		e.rep.Report(viol("panic", "Decoder panicked on a stream: "+firstLine(pan), map[string]interface{}{"api": "Decoder"}))
 	}
 	return nil
 }
